@@ -99,6 +99,12 @@ static const ares_nameoffset_t *ares_nameoffset_find(ares_llist_t *list,
     const ares_nameoffset_t *val = ares_llist_node_val(node);
     size_t                   prefix_len;
 
+    /* A compression pointer is 14 bits wide, names first written at or beyond
+     * 16KiB into the message can't be pointed at */
+    if (val->idx > 0x3FFF) {
+      continue;
+    }
+
     /* Can't be a match if the stored name is longer */
     if (val->name_len > name_len) {
       continue;
